@@ -171,6 +171,10 @@ def mdErrorOK (before : DB) (h : Handle) (id : Nat) (kvs : List (K × String)) (
 def deleteOK (before after : DB) (h : Handle) (id : Nat) : Bool :=
   !(openStudy before h && (lookup before h id).isSome) || (lookup after h id).isNone
 
+/-- `Study.delete`: the study is gone -/
+def deleteStudyOK (before after : DB) (h : Handle) : Bool :=
+  (findStudy before h.owner h.sid).isNone || (findStudy after h.owner h.sid).isNone
+
 /-- `Study.add_trial` / `Study.request` on an open study: a NEW trial with the given parameters is stored —
     SUCCEEDED when a completed trial was added, REQUESTED (queued for the next `suggest`) otherwise — and
     its handle returned -/
@@ -193,6 +197,7 @@ def effectsOK (before after : DB) (h : Handle) (c : Call) (obs : Obs) : Bool :=
   | .setState s => setStateOK before after h s
   | .updateMetadata (some id) kvs => mdErrorOK before h id kvs obs
   | .deleteTrial id => deleteOK before after h id
+  | .deleteStudy => deleteStudyOK before after h
   | _ => true
 
 /-- lifecycle of every study between two observations (the predicates of C01 / C02) -/
